@@ -247,6 +247,50 @@ func runC16(args []string) {
 					_ = os.WriteFile(p, []byte("older "+rel), 0o600)
 				}
 				_ = os.WriteFile(filepath.Join(dir, b, "kessoku-di", "REMOVED_IN_NEW_RELEASE.md"), []byte("old"), 0o644)
+			case "same-content-other-modes", "same-content-symlinks":
+				modes := []os.FileMode{0o600, 0o664, 0o444, 0o640}
+				var rels []string
+				for rel := range emb {
+					rels = append(rels, rel)
+				}
+				sort.Strings(rels)
+				src := filepath.Join(pipe.RepoDir(), "internal", "llmsetup", "skills", "kessoku-di")
+				for i, rel := range rels {
+					p := filepath.Join(dir, b, "kessoku-di", rel)
+					_ = os.MkdirAll(filepath.Dir(p), 0o755)
+					content, _ := os.ReadFile(filepath.Join(src, rel))
+					if name == "same-content-symlinks" {
+						// links to identical copies kept outside every base; the copies must stay untouched
+						store := filepath.Join(dir, "other", "store", rel)
+						_ = os.MkdirAll(filepath.Dir(store), 0o755)
+						_ = os.WriteFile(store, content, 0o600)
+						rp, _ := filepath.Rel(filepath.Dir(p), store)
+						_ = os.Symlink(rp, p)
+						continue
+					}
+					_ = os.WriteFile(p, content, 0o600)
+					_ = os.Chmod(p, modes[i%len(modes)])
+				}
+			case "partial-install":
+				// some files of the current release present and pristine, one truncated, the rest missing
+				var rels []string
+				for rel := range emb {
+					rels = append(rels, rel)
+				}
+				sort.Strings(rels)
+				src := filepath.Join(pipe.RepoDir(), "internal", "llmsetup", "skills", "kessoku-di")
+				for i, rel := range rels {
+					if i%3 == 2 {
+						continue
+					}
+					p := filepath.Join(dir, b, "kessoku-di", rel)
+					_ = os.MkdirAll(filepath.Dir(p), 0o755)
+					content, _ := os.ReadFile(filepath.Join(src, rel))
+					if i%3 == 1 {
+						content = content[:len(content)/2]
+					}
+					_ = os.WriteFile(p, content, 0o644)
+				}
 			case "unrelated-files":
 				_ = os.MkdirAll(filepath.Join(dir, b, "kessoku-di", "notes"), 0o700)
 				_ = os.WriteFile(filepath.Join(dir, b, "other-skill.md"), []byte("someone else's skill"), 0o640)
@@ -264,7 +308,7 @@ func runC16(args []string) {
 	}
 	seen := map[string]bool{}
 	var frontier []*node
-	for _, n := range []string{"absent", "older-install", "unrelated-files", "base-is-a-file"} {
+	for _, n := range []string{"absent", "older-install", "unrelated-files", "base-is-a-file", "same-content-other-modes", "same-content-symlinks", "partial-install"} {
 		nd := mkInit(n)
 		seen[nd.state.hash()] = true
 		frontier = append(frontier, nd)
@@ -366,7 +410,7 @@ func runC16(args []string) {
 		"samples":                       samples,
 		"evaluations":                   transitions,
 		"distinct_nontrivial":           states,
-		"rule":                          fmt.Sprintf("breadth-first search over command sequences (depth <= %d) of the real CLI in a private root {home, proj, other}: command = each of the %d documented agents x {default, --user, --path relative, --path absolute, --path with --user}; initial states = {absent, older install with other bytes/modes and an extra file, unrelated files in every base and skill directory, every base path is a file}; state = (path, mode, sha256) snapshot of the whole root, deduplicated by hash; after EVERY transition the snapshot must equal model(previous snapshot, command), the model being the README table (base = custom > user > project; target = base/kessoku-di; complete embedded tree, 0644; only missing parents created; refusal changes nothing). Also: `llm-setup --help` offers exactly the documented subcommands", maxDepth, len(agents)),
+		"rule":                          fmt.Sprintf("breadth-first search over command sequences (depth <= %d) of the real CLI in a private root {home, proj, other}: command = each of the %d documented agents x {default, --user, --path relative, --path absolute, --path with --user}; initial states = {absent, older install with other bytes/modes and an extra file, unrelated files in every base and skill directory, every base path is a file, current content with other permissions (0600/0664/0444/0640), current content behind symbolic links to copies kept elsewhere, partial install (pristine / truncated / missing files)}; state = (path, mode, sha256) snapshot of the whole root, deduplicated by hash; after EVERY transition the snapshot must equal model(previous snapshot, command), the model being the README table (base = custom > user > project; target = base/kessoku-di; complete embedded tree, 0644; only missing parents created; refusal changes nothing). Also: `llm-setup --help` offers exactly the documented subcommands", maxDepth, len(agents)),
 		"exhaustive":                    true,
 		"documented_agents":             len(agents),
 		"commands":                      len(cmds),
